@@ -35,6 +35,7 @@ typedef struct {
 	int key;                    /* 0 RSA; 1 EC P-256, EC issuer; 2 EC P-256, RSA issuer; 3 EC P-384, EC issuer */
 	unsigned usages;            /* BR_KEYTYPE_KEYX / BR_KEYTYPE_SIGN */
 	int creq;                   /* request a client certificate */
+	int profile;                /* 1..7: the context is set up by br_ssl_server_init_mine2c .. minv2g and left as it is; the fields above say what that profile means */
 	/* run time */
 	br_ec_impl ec;              /* EC implementation with a restricted supported_curves mask */
 } side;
@@ -44,8 +45,8 @@ typedef struct {
 static const int curve_ids[4] = { 23, 24, 25, 29 };
 /* several names are proper prefixes of others: matching must be exact */
 static const char *alpn_universe[8] = { "h2", "http/1.1", "spdy/3", "x-verif", "h2c", "http/1", "spdy/3.1", "x" };
-static const char *kind_names[] = { "versions", "single", "pair", "flags", "subsets", "alpn-sni", "random", "scripted", "scripted_srv", "resume" };
-enum { K_VERSIONS, K_SINGLE, K_PAIR, K_FLAGS, K_SUBSETS, K_ALPN, K_RANDOM, K_SCRIPTED, K_SCRIPTED_SRV, K_RESUME };
+static const char *kind_names[] = { "versions", "single", "pair", "flags", "subsets", "alpn-sni", "random", "scripted", "scripted_srv", "resume", "profile" };
+enum { K_VERSIONS, K_SINGLE, K_PAIR, K_FLAGS, K_SUBSETS, K_ALPN, K_RANDOM, K_SCRIPTED, K_SCRIPTED_SRV, K_RESUME, K_PROFILE };
 #define NSLOTS 10   /* case idx -> slot idx % NSLOTS -> kind; q = idx / NSLOTS enumerates within a kind */
 
 /* name-check bypass: the fixture certificates carry localhost / www.example.com only */
@@ -81,6 +82,7 @@ pre_reset(void *epv, void *arg)
 		dflt = real_default;
 	}
 
+	if (sd->profile) return;      /* a minimal server profile: nothing is touched after the library's own initialisation */
 	for (id = 1; id <= 6; id ++) {
 		if (!((sd->hashes >> id) & 1)) br_ssl_engine_set_hash(ep->eng, id, NULL);
 	}
@@ -130,6 +132,10 @@ side_to_cfg(side *sd, int role, tp_cfg *c, vf_rng *r)
 		c->keykind = sd->key == 0 ? TP_KEY_RSA : (sd->key == 2 ? TP_KEY_ECRSA : TP_KEY_ECEC);
 		c->use_ec384 = sd->key == 3;
 		c->client_auth = sd->creq;
+	}
+	if (role == 1 && sd->profile) {
+		c->profile = sd->profile;
+		c->vmin = c->vmax = 0; c->suites = NULL; c->nsuites = 0; c->flags_set = 0; c->alpn = NULL; c->nalpn = 0;
 	}
 	c->pre_reset = pre_reset; c->pre_reset_arg = sd;
 	vf_bytes(r, c->seed, 32);
@@ -301,7 +307,7 @@ gen_case(vf_rng *r, long long seed, long idx, int *kind_out, side *C, side *S)
 	case 2: case 3: kind = K_PAIR; break;
 	case 4: kind = K_FLAGS; break;
 	case 5: kind = K_SUBSETS; break;
-	case 6: kind = (q & 1) ? K_ALPN : K_RANDOM; break;
+	case 6: kind = (q % 3) == 2 ? K_PROFILE : (q & 1) ? K_ALPN : K_RANDOM; break;
 	case 7: kind = K_SCRIPTED; break;
 	case 8: kind = K_SCRIPTED_SRV; break;
 	default: kind = K_RESUME; break;
@@ -438,6 +444,24 @@ gen_case(vf_rng *r, long long seed, long idx, int *kind_out, side *C, side *S)
 	} else {
 		if (vf_below(r, 100) < 20) C->curves = random_curves(r);
 		if (vf_below(r, 100) < 20) S->curves = random_curves(r);
+	}
+
+	if (kind == K_PROFILE) {
+		/* the server is one of the library's minimal profiles; what the client is has been drawn as for the random kind
+		   (half of the clients keep the whole default suite list) */
+		static const uint16_t psuite[8] = { 0, 0xCCA8, 0xC02F, 0xCCA9, 0xC02B, 0x009C, 0xC031, 0xC02D };
+		static const int pkey[8] = { 0, 0, 0, 1, 2, 0, 2, 1 };
+		int pf = 1 + (int)((q / 3) % 7);
+		S->profile = pf;
+		S->vmin = S->vmax = 0x0303;
+		S->suites[0] = psuite[pf]; S->nsuites = 1;
+		S->hashes = 1u << 4;
+		S->curves = pf <= 4 ? CURVES_ALL : 0;      /* minr2g, minu2g, minv2g give the engine no EC implementation */
+		S->key = pkey[pf];
+		if ((pf == 3 || pf == 4) && vf_below(r, 2)) S->key = 3 - S->key;
+		S->usages = pf <= 4 ? BR_KEYTYPE_SIGN : BR_KEYTYPE_KEYX;
+		S->flags = 0; S->nalpn = 0; S->creq = 0;
+		if (vf_below(r, 2)) { all_suites(C); if (vf_below(r, 2)) C->vmax = 0x0303; }
 	}
 
 	/* a client that cannot handle the curve of the server's own key is the rarer case */
@@ -669,6 +693,7 @@ run_pair(long long seed, long idx, int kind, side *C, side *S, vf_rng *r)
 		old_name[nl] = 0;
 		c0.sni = old_name;
 		c0.vmin = s0.vmin = 0x0301; c0.vmax = s0.vmax = 0x0303;
+		if (S->profile) s0.vmin = s0.vmax = 0;      /* a minimal profile stays as the library set it up */
 		c0.flags ^= BR_OPT_NO_RENEGOTIATION; s0.flags ^= BR_OPT_ENFORCE_SERVER_PREFERENCES | BR_OPT_NO_RENEGOTIATION;
 		if (cc.alpn != NULL) { c0.alpn = old_alpn; c0.nalpn = 2; }
 		if (sc.alpn != NULL) { s0.alpn = old_alpn; s0.nalpn = 2; }
